@@ -30,7 +30,13 @@ mod votor;
 use std::marker::{Send, Sync};
 use std::num::NonZeroU64;
 use std::sync::Arc;
+#[cfg(not(feature = "verif-hooks"))]
 use std::time::{Duration, Instant};
+#[cfg(feature = "verif-hooks")]
+use std::time::Duration;
+
+#[cfg(feature = "verif-hooks")]
+use tokio::time::Instant;
 
 use anyhow::Result;
 use fastrace::Span;
